@@ -160,10 +160,32 @@ func clientStreaming(c *Case) bool {
 	return false
 }
 
-func varintDelimited(msgs [][]byte) []byte {
+// appendVarintWidth appends v as a varint of (at least) the given width:
+// 0 = minimal, -1 = minimal plus one byte, k = padded to k bytes.
+func appendVarintWidth(b []byte, v uint64, width int) []byte {
+	min := protowire.SizeVarint(v)
+	k := width
+	if width < 0 {
+		k = min + 1
+	}
+	if k <= min || k > 10 {
+		return protowire.AppendVarint(b, v)
+	}
+	for i := 0; i < k; i++ {
+		c := byte(v & 0x7f)
+		v >>= 7
+		if i != k-1 {
+			c |= 0x80
+		}
+		b = append(b, c)
+	}
+	return b
+}
+
+func varintDelimited(msgs [][]byte, width int) []byte {
 	var b []byte
 	for _, m := range msgs {
-		b = protowire.AppendVarint(b, uint64(len(m)))
+		b = appendVarintWidth(b, uint64(len(m)), width)
 		b = append(b, m...)
 	}
 	return b
@@ -227,7 +249,7 @@ func httpParts(c *Case) (method, path string, hdr http.Header, body []byte) {
 	case c.Codec == "json":
 		body = bytes.Join(c.Reqs, nil)
 	case c.Codec == "proto":
-		body = varintDelimited(c.Reqs)
+		body = varintDelimited(c.Reqs, c.PrefixWidth)
 	}
 	if c.Kind == "prefix" {
 		body = protowire.AppendVarint(body, c.Declared)
